@@ -318,7 +318,7 @@ impl<'a> Harm<'a> {
             Op::Reopen { lazy, remove_all_idx, damage } => {
                 self.reopen(*lazy, *remove_all_idx, damage, &[]).await;
             }
-            Op::Fail { .. } | Op::Cancel { .. } | Op::Burst { .. } | Op::CrashReopen { .. } => {}
+            Op::Fail { .. } | Op::Cancel { .. } | Op::Burst { .. } | Op::CrashReopen { .. } | Op::Probe { .. } | Op::Abandon { .. } => {}
         }
     }
 
